@@ -227,7 +227,8 @@ func regexpNext(sb *strings.Builder, sl *stringLexer, mode Mode) error {
 		}
 		// "**" only acts as globstar if it is alone as a path element.
 		singleBefore := sl.i == 1 || sl.last() == '/'
-		if sl.peekNext() == '*' {
+		// With extended operators, the second star of "**(" begins a "*(...)" group.
+		if sl.peekNext() == '*' && !(mode&ExtendedOperators != 0 && strings.HasPrefix(sl.peekRest(), "*(")) {
 			sl.i++
 			singleAfter := sl.i == len(sl.s) || sl.peekNext() == '/'
 			if mode&NoGlobStar == 0 && singleBefore && singleAfter {
